@@ -37,6 +37,7 @@ def _cases(draw):
         "dtype": draw(gen.dtypes),
         "seed": draw(st.integers(0, 2**20)),
         "steps": draw(st.lists(st.sampled_from(STEPS), min_size=2, max_size=7)),
+        "final": draw(st.sampled_from([None, None, "cpu", "cpu-dtype", "cpu:0", "dtype"])),
     }
 
 
@@ -313,6 +314,36 @@ def _exec_history(case):
             if isinstance(r, Raised):
                 return out.fail(f"channels_last-raises:{r.type}/{'frozen' if frozen else 'unfrozen'}", r.text)
         did.append(st_)
+    if frozen and case.get("final") and not out.failures:
+        # the last thing an inference script does: move the frozen model inside torch.inference_mode() (where Tensor.to is not
+        # decomposed and reaches the tensors as aten.to) and run it there. A final step: inference tensors cannot go back.
+        y0 = run_probes(model)
+        if isinstance(y0, Raised):
+            return out.fail(f"forward-raises:{y0.type}/frozen", y0.text)
+        how = case["final"]
+
+        def move():
+            with torch.inference_mode():
+                if how == "cpu":
+                    model.to("cpu")
+                elif how == "cpu-dtype":
+                    model.to("cpu", dtype)
+                elif how == "cpu:0":
+                    model.to(torch.device("cpu:0"))
+                else:
+                    model.to(dtype)
+
+        r = cut(move)
+        if isinstance(r, Raised):
+            return out.fail(f"to-in-inference-mode-raises:{r.type}/{wk}", f"model.to({how}) of a frozen model inside torch.inference_mode(): {r.text}")
+        with torch.inference_mode():
+            y1 = run_probes(model)
+        if isinstance(y1, Raised):
+            return out.fail(f"to-in-inference-mode/forward-raises:{y1.type}", y1.text)
+        if not same_outputs(y0, y1):
+            out.fail(f"to-in-inference-mode/{wk}/output-changed", f"outputs differ after model.to({how}) inside inference_mode ({case['wq']}, act {case['aq']})")
+        check_frozen_storage(out, model, wq, "to-in-inference-mode")
+        did.append("to_in_inference_mode")
     fi = [i for i, s in enumerate(did) if s == "freeze"]
     out.nontrivial = bool(fi) and "forward" in did[: fi[0] + 1] + ["forward"] and (any(s in ("freeze_again", "deepcopy", "reload", "to_cpu_copy", "continue_on_copy", "freeze", "to_inplace") for s in did[fi[0] + 1 :]) or "freeze_one" in did[: fi[0]])
     return out
